@@ -36,6 +36,15 @@ structure EventWf (e : Event Nat Nat) : Prop where
 
 def Wf32 (es : List (Event Nat Nat)) : Prop := ∀ e ∈ es, EventWf e
 
+/-- a DECIDABLE sufficient condition for `Wf32` (used by the non-vacuity examples):
+    every id and every per-event count is below some `b ≤ 2³²` -/
+theorem wf32_of_bound (b : Nat) (hb : b ≤ 4294967296) (es : List (Event Nat Nat))
+    (h : ∀ e ∈ es, (∀ i ∈ e.cues, i < b) ∧ (∀ i ∈ e.outcomes, i < b) ∧ e.cues.length < b ∧ e.outcomes.length < b) :
+    Wf32 es := by
+  intro e he
+  obtain ⟨h1, h2, h3, h4⟩ := h e he
+  exact ⟨fun i hi => by have := h1 i hi; omega, fun i hi => by have := h2 i hi; omega, by omega, by omega⟩
+
 theorem decodeEvents_encode (es : List (Event Nat Nat)) (h : Wf32 es) (rest : Bytes) :
     decodeEvents es.length (es.flatMap encodeEvent ++ rest) = some (es, rest) := by
   induction es with
